@@ -159,6 +159,8 @@ def main():
                 for o in flat(out["result"]):
                     lc = lincomb_of(o)
                     res.append(("lc", cl(lc.lc.lc)) if lc is not None else ("plain",))
+            if not spec.get("trace_results", True):
+                res = []
             return (len(out["pub"]), len(out["priv"]), cons, tuple(res))
         ca, cb = canon(a), canon(b)
         if ca != cb:
